@@ -93,6 +93,17 @@ def rule_hash(run, F, cfg):
                 ok2 = True
     run.ob("C16.1.hash-agreement", "location-normalisation", ok2,
            "locations_before_sharp recognises the `~` prefix and the `.*` entity suffix before hashing", config=cfg)
+    # ... and the hashed text is lower-case like the page hostname it is compared with: ASCII locations through
+    # to_ascii_lowercase, the others through idna::domain_to_ascii (which lower-cases)
+    pb = F.fn("filters::cosmetic::CosmeticFilter::parse_before_sharp")
+    pushed = sorted(set(pb.expr_operand(t["args"][1]) for b, t in pb.calls(r"^std::string::String::push_str$")))
+    lower = len(pushed) == 2 and any(re.match(r"^<std::string::String as std::ops::Deref>::deref\(std::str::to_ascii_lowercase\(", x) or
+                                     re.match(r"^std::str::to_ascii_lowercase\(", x) for x in pushed) \
+        and any("idna::domain_to_ascii(" in x for x in pushed)
+    hashed = [pb.expr_operand(t["args"][0]) for b, t in pb.calls(r"^utils::fast_hash$")]
+    run.ob("C16.1.hash-agreement", "location-lower-cased", lower and len(hashed) == 1,
+           "parse_before_sharp hashes each location after ASCII lower-casing it (or after idna::domain_to_ascii): `Example.org##.ad` "
+           f"has to apply on example.org ({[x[:90] for x in pushed]})", site=pb.loc(0), config=cfg)
 
 
 def _bin_reads(f):
